@@ -280,6 +280,7 @@ loop:
 			return nil, err
 		}
 
+		p.ignoreWhitespace()
 		if p.input == "" {
 			return nil, errors.New("dictionary expected ',' or '}'")
 		}
@@ -324,22 +325,41 @@ func (p *flagParser) parseKey() (string, error) {
 
 func (p *flagParser) parseStringDQuote() (string, error) {
 	in := p.input
-	off := 1
-	var i int
-	for {
-		i = strings.IndexByte(in[off:], '"')
-		if i < 0 {
-			return "", errors.New("Missing \" to close string ")
-		}
 
-		i += off
-		if in[i-1] != '\\' {
+	// Find the closing quote: a quote is escaped only if it is preceded by an
+	// odd number of backslashes, so skip every escaped character as a pair.
+	// The JSON escape \/ is not known to strconv.Unquote and is replaced here.
+	var cleaned []byte // set once a \/ escape has been replaced
+	i := 1
+	for ; i < len(in); i++ {
+		c := in[i]
+		if c == '\\' && i+1 < len(in) {
+			if in[i+1] == '/' {
+				if cleaned == nil {
+					cleaned = append(cleaned, in[:i]...)
+				}
+				cleaned = append(cleaned, '/')
+			} else if cleaned != nil {
+				cleaned = append(cleaned, c, in[i+1])
+			}
+			i++
+			continue
+		}
+		if c == '"' {
 			break
 		}
-		off = i + 1
+		if cleaned != nil {
+			cleaned = append(cleaned, c)
+		}
+	}
+	if i >= len(in) {
+		return "", errors.New("Missing \" to close string ")
 	}
 
 	p.input = in[i+1:]
+	if cleaned != nil {
+		return strconv.Unquote(string(append(cleaned, '"')))
+	}
 	return strconv.Unquote(in[:i+1])
 }
 
